@@ -15,7 +15,7 @@ def base_history(ctx, flav):
     bs = 512 if flav & 1 else 488
     A, B, D = hexs(b"fileA"), hexs(b"fileB"), hexs(b"dirD")
     L = gen.dev_create("DD", flav) + ["mountdev 0", "mount 0 0",
-        "open 0 - %s w" % A, "write 0 7 %d" % (75 * bs + 100), "close 0",
+        "open 0 - %s w" % A, "write 0 7 %d" % (220 * bs + 100), "close 0",
         "mkdir - %s" % D, "open 0 %s %s w" % (D, B), "write 0 8 %d" % (3 * bs + 9), "close 0"]
     return L, bs
 
@@ -32,6 +32,11 @@ def target_ops(ctx, bs):
         ["open 1 - %s r" % A, "seek 1 %d" % (70 * bs)] + ["read 1 %d hex" % bs] * 6 + ["close 1"],
         ["open 1 - %s r" % A, "seek 1 %d" % (71 * bs + 100)] + ["read 1 %d hex" % (bs + bs // 2 + 7)] * 3 + ["close 1"],
         ["open 1 - %s r" % A, "read 1 %d hex" % (73 * bs), "read 1 %d hex" % bs, "read 1 %d hex" % bs, "close 1"],
+        # seeks that walk the extension chain: into the second extension block, back into the first, to its last slot
+        ["open 1 - %s r" % A, "seek 1 %d" % (146 * bs + 7), "read 1 600 hex", "seek 1 %d" % (80 * bs), "read 1 100 hex", "seek 1 %d" % (143 * bs + 500), "read 1 %d hex" % bs, "close 1"],
+        ["open 1 - %s rw" % A, "seek 1 %d" % (149 * bs), "read 1 %d hex" % bs, "seek 1 %d" % (144 * bs - 1), "read 1 10 hex", "close 1"],
+        # the third extension block: the walk passes two others first
+        ["open 1 - %s r" % A, "seek 1 %d" % (218 * bs + 3), "read 1 700 hex", "seek 1 %d" % (216 * bs), "read 1 20 hex", "seek 1 %d" % (100 * bs), "read 1 20 hex", "close 1"],
     ]
     writes = [
         ["open 1 - %s rw" % A, "seek 1 %d" % (bs - 10), "write 1 9 40", "seek 1 0", "read 1 60 hex", "close 1"],
@@ -86,10 +91,10 @@ def run(ctx):
     for flav in flavs:
         base, bs = base_history(ctx, flav)
         reads, writes = target_ops(ctx, bs)
-        verify = ["fault clear", "open 5 - %s r" % A, "read 5 %d" % (80 * bs), "close 5", "open 5 %s %s r" % (D, B), "read 5 %d" % (5 * bs), "close 5"]
+        verify = ["fault clear", "open 5 - %s r" % A, "read 5 %d" % (230 * bs), "close 5", "open 5 %s %s r" % (D, B), "read 5 %d" % (5 * bs), "close 5"]
         verify_after_remount = ["umount", "umountdev", "mountdev 0", "mount 0 0"] + verify[1:]
         # the true content of both files (reference model)
-        Lt = base + ["open 5 - %s r" % A] + ["read 5 4096 hex"] * 12 + ["close 5", "open 5 %s %s r" % (D, B)] + ["read 5 4096 hex"] * 2 + ["close 5"]
+        Lt = base + ["open 5 - %s r" % A] + ["read 5 4096 hex"] * 29 + ["close 5", "open 5 %s %s r" % (D, B)] + ["read 5 4096 hex"] * 2 + ["close 5"]
         et = expected(ctx, Lt)
 
         def cat(first, count):
@@ -98,8 +103,8 @@ def run(ctx):
                 d_ = common.kv(et.get(k_, ""))[1].get("data", "-")
                 out_ += bytes.fromhex(d_) if d_ not in ("-", "") else b""
             return out_
-        true_bytes = {"A": cat(len(base) + 2, 12), "B": cat(len(base) + 16, 2)}
-        if len(true_bytes["A"]) != 75 * bs + 100 or len(true_bytes["B"]) != 3 * bs + 9:
+        true_bytes = {"A": cat(len(base) + 2, 29), "B": cat(len(base) + 33, 2)}
+        if len(true_bytes["A"]) != 220 * bs + 100 or len(true_bytes["B"]) != 3 * bs + 9:
             ctx.notes.append("reference content of the test files could not be computed (flavour %d)" % flav)
         for kind, groups in (("read-side", reads), ("write-side", writes)):
             for g in groups:
@@ -121,17 +126,21 @@ def run(ctx):
                     L += ["fault clear"]
                     vstart = len(L)
                     if not touched_a:
-                        L += ["open 5 - %s r" % A, "read 5 %d" % (80 * bs), "close 5"]
+                        L += ["open 5 - %s r" % A, "read 5 %d" % (230 * bs), "close 5"]
                     if not touched_b:
                         L += ["open 5 %s %s r" % (D, B), "read 5 %d" % (5 * bs), "close 5"]
                     L += ["umount", "umountdev", "mountdev 0", "mount 0 0"]
                     if not touched_a:
-                        L += ["open 5 - %s r" % A, "read 5 %d" % (80 * bs), "close 5"]
+                        L += ["open 5 - %s r" % A, "read 5 %d" % (230 * bs), "close 5"]
                     if not touched_b:
                         L += ["open 5 %s %s r" % (D, B), "read 5 %d" % (5 * bs), "close 5"]
                     L += ["umount", "umountdev"]
                     variant = "adfh-asan" if (ctx.tier == "thorough" or rng.random() < 0.3) else "adfh"
                     jobs.append((oi, rw, k, L, vstart, variant))
+                    if rw == "rd":
+                        # the same fault on a device that leaves the caller's buffer untouched when a read fails (stale content
+                        # instead of a recognisable pattern): both are devices "failing a block read"
+                        jobs.append((oi, rw, k, ["garbage keep"] + L, vstart + 1, variant))
 
                 def one(job):
                     oi, rw, k, L, vstart, variant = job
@@ -141,6 +150,11 @@ def run(ctx):
                     return rc, out, err
                 for (oi, rw, k, L, vstart, variant), (rc, out, err) in zip(jobs, common.pmap(one, jobs)):
                     res = common.parse_results(out)
+                    if L[0] == "garbage keep":
+                        res = {ln - 1: v for ln, v in res.items() if ln > 1}
+                        L = L[1:]
+                        vstart -= 1
+                        ctx.bump("fault:stale-buffer-device")
                     ctx.count((flav, kind, tuple(g), oi, rw, k))
                     ctx.bump("fault:%s:%s" % (kind, rw))
                     inp = {"flavour": flav, "faulted_operation": g[oi], "fault": "%s #%d of that call" % ("read" if rw == "rd" else "write", k), "script": L}
@@ -205,7 +219,7 @@ def run(ctx):
                             r_ = (res.get(ln) or ["?"])[-1]
                             which = "A" if L[ln - 2].startswith("open 5 - ") else "B"
                             key = common.kv(r_)[1].get("n", "?") + ":" + common.kv(r_)[1].get("fnv", "?")
-                            truth = {"A": "%d" % (75 * bs + 100), "B": "%d" % (3 * bs + 9)}[which]
+                            truth = {"A": "%d" % (220 * bs + 100), "B": "%d" % (3 * bs + 9)}[which]
                             if not r_.startswith("ok") or common.kv(r_)[1].get("n") != truth:
                                 ctx.fail("oracle", "a file that was not being modified cannot be read back after the fault cleared", inp, expected="n=%s" % truth, actual=r_)
                             elif full[which] is None:
@@ -226,7 +240,7 @@ def run(ctx):
             "listings and lookups (hash and cache), overwrite, create, mkdir/delete/move, truncate/comment; for each call of a group one run per device read and per "
             "device write it performs with exactly that transfer failing (all of them, all six flavours, both tiers); distinct = (flavour, group, call, transfer)")
     return common.finish(ctx, proof, rule, level="fault_enumeration",
-                         assumptions=["a failing device read leaves a recognisable garbage pattern in the caller's buffer",
+                         assumptions=["a failing device read either fills the caller's buffer with a recognisable pattern or leaves it untouched (both device behaviours are enumerated)",
                                       "content of a file whose own write was interrupted by the fault is not judged (only that nothing crashes and bystanders survive)"])
 
 
